@@ -30,8 +30,9 @@ def snapshot(results):
     return out
 
 
-def make_results(d, lang, shape, batch, nbest, n):
-    from depccg.tree import ScoredTree
+def make_results(d, lang, shape, batch, nbest, n, minimal=False):
+    from depccg.tree import ScoredTree, Tree
+    from depccg.cat import Category
     res = []
     for s in range(batch):
         sent = []
@@ -41,17 +42,27 @@ def make_results(d, lang, shape, batch, nbest, n):
                     return dd.string('word', n, TOKEN)
                 return 'w%d' % i
             tb = TreeBuilder(d, lang, word=w, heads=(k % 2 == 0), labels=s + k, prefix='t%d_%d' % (s, k))
-            sent.append(ScoredTree(tb.build(shape), -1.5 - k))
+            t = tb.build(shape)
+            if minimal:
+                # tokens as the readers / the failure placeholder build them: only the word is known
+                for leaf in t.leaves:
+                    tok = leaf.children[0]
+                    for key in list(tok.keys()):
+                        if key not in ('word',):
+                            del tok[key]
+            sent.append(ScoredTree(t, -1.5 - k))
         res.append(sent)
+    if minimal:
+        res.append([ScoredTree(Tree.make_terminal('FAILED', Category.parse('NP')), -float('inf'))])
     return res
 
 
-def h_seq(d, lang, shape, batch, nbest, n, seqlen, first=None):
+def h_seq(d, lang, shape, batch, nbest, n, seqlen, first=None, minimal=False):
     from depccg.printer import to_string
     from depccg.lang import set_global_language_to
     set_global_language_to(lang)
     fmts = FORMATS[lang]
-    res = make_results(d, lang, shape, batch, nbest, n)
+    res = make_results(d, lang, shape, batch, nbest, n, minimal)
     snap0 = snapshot(res)
     out = None
     seq = []
@@ -64,7 +75,7 @@ def h_seq(d, lang, shape, batch, nbest, n, seqlen, first=None):
             return ('render-raises.%s.after-%s:%s' % (f, '+'.join(seq[:-1]) or 'nothing', type(e).__name__),)
         if snapshot(res) != snap0:
             return ('mutated-by.' + f, seq)
-    fresh = make_results(_Again(d), lang, shape, batch, nbest, n)
+    fresh = make_results(_Again(d), lang, shape, batch, nbest, n, minimal)
     try:
         out2 = to_string(fresh, format=seq[-1])
     except Exception as e:
@@ -114,6 +125,9 @@ def obligations(tier):
                 n = 1 if (batch, nbest) == (1, 1) else 0
                 yield Obligation('C18.seq[%s,%s,batch=%dx%d,len=2]' % (lang, shape_name(s), batch, nbest), 'h_seq',
                                  dict(lang=lang, shape=s, batch=batch, nbest=nbest, n=n, seqlen=2), cost=10)
+                if (batch, nbest) == (1, 1) and s in (SHAPES[1][0], SHAPES[2][0]):
+                    yield Obligation('C18.seq[%s,%s,word-only tokens + failed sentence,len=2]' % (lang, shape_name(s)), 'h_seq',
+                                     dict(lang=lang, shape=s, batch=1, nbest=1, n=0, seqlen=2, minimal=True), cost=10)
                 if (batch, nbest) == (1, 1):
                     for first in (['jigg_xml', 'xml', 'json', 'prolog'] if q else FORMATS[lang]):
                         if first in FORMATS[lang]:
